@@ -686,9 +686,12 @@ def main(run):
     fused_check(run, rng)
     from harness import c01_tables
     c01_tables.run_tables(run, rng)
+    from harness import c01_qulacs
+    c01_qulacs.run_qulacs(run, rng, 40 if run.tier == "quick" else 300)
     return run.finish(level="proof", rule=(
         "gate tables: one obligation per gate class of gates.py (traced matrix = documented matrix of Spec/GateSpec.v for all "
-        "parameters, unitarity for all parameters, constructor argument roles); index part: "
+        "parameters, unitarity for all parameters, constructor argument roles); qulacs backend against the numpy backend on "
+        "generated circuits (test level, tolerance, labelled); index part: "
         "random circuits n in 1..5, depth 1..6, Unitary gates with Gaussian-integer matrices on random ordered target tuples "
         "(arity 1..3) with 0..n-k controls given in random order, plus exact named gates; depth-1 sweep over all "
         "(ordered targets, control subset) placements (quick: all n<=3 + sample, thorough: all n<=5 arity<=3); "
